@@ -13,9 +13,9 @@ from harness import core, tlc
 from props import asyncio_common as ac
 
 META = {
-    "technique": "TLA+ monitor + mechanism model (AsyncIOSched.tla) checked by TLC over all interleavings; scenario family exported by TLC and performed on the real schedulers under DetSched-controlled thread schedules on a virtual-time subclass of the real asyncio.BaseEventLoop; recorded traces validated in batch by TLC (AsyncIOSchedTrace.tla)",
-    "level": "TLC checks OnLoopThread, NotEarly, NoStartAfterDisposeReturned, NoLostAction (and AtMostOnce, no stuck state) on every interleaving of the loop thread and a foreign thread of the asyncio/scheduler mechanism model for every scenario of the bounded family (scheduler kind x immediate/relative x who schedules x who disposes x wait), with the cancellation decision taken on the scheduler's own loop state; the decision as the pinned code takes it and three single faults are refuted by the same invariants (non-vacuity). Every scenario TLC exports is built on the real AsyncIOScheduler / AsyncIOThreadSafeScheduler over the stdlib's own BaseEventLoop (Handle, TimerHandle, _run_once, timer heap) with a controlled clock and run under every thread schedule up to the preemption bound (iterative context bounding, capped per scenario) plus seeded random schedules; each execution's totally ordered event trace (schedule call/return, dispose call/return with thread, action start with thread and loop clock, loop start/stop/idle) must be a behaviour of the monitor that satisfies every invariant in every state.",
-    "note": "TLC 1.8; DetSched switch points = GIL-realisable points in the two scheduler modules and in Handle.cancel/_run, BaseEventLoop._run_once/call_soon(_threadsafe)/call_later/call_at; selector replaced by a cooperative stub, loop.time() = controlled clock, concurrent.futures.Future replaced in the scheduler module by a cooperative future; one disposing thread per item; the loop does not start or stop during a dispose() call",
+    "technique": "TLA+ property monitor + asyncio/scheduler mechanism model (AsyncIOSched.tla) checked by TLC over all interleavings with negative controls; scenario family exported by TLC and performed on the real schedulers under DetSched-controlled thread schedules on a virtual-time subclass of the real asyncio.BaseEventLoop; recorded traces validated in batch by TLC against the monitor (AsyncIOSchedTrace.tla) and matched against the mechanism (AsyncIOSchedMech.tla, drift only)",
+    "level": "TLC checks OnLoopThread, NotEarly, NoStartAfterDisposeReturned, NoLostAction (plus AtMostOnce, NoMissedWakeup, no stuck state) on every interleaving of the loop thread and the foreign thread(s) of the mechanism model (ready FIFO, timer heap, cancelled flags, self-pipe wake-up, two-stage relative schedule, direct vs marshalled cancellation at source-line granularity) for every scenario of the bounded family (scheduler kind x immediate/relative x who schedules x who disposes x wait x disposer inside another running loop), with the cancellation decision taken on the scheduler's own loop state; the decision of the originally pinned code and four single faults are each refuted by the invariant they were built to break (non-vacuity, same run). Every scenario TLC exports is built on the real AsyncIOScheduler / AsyncIOThreadSafeScheduler over the stdlib's own BaseEventLoop (Handle, TimerHandle, _run_once, timer heap) with a controlled clock and run under thread schedules up to the preemption bound (context-bounded, capped per scenario, seeded) plus seeded random schedules; each execution's totally ordered event trace (schedule call/return, dispose call/return with thread, action start with thread and loop clock, loop start/stop/idle) must be a behaviour of the monitor that satisfies every invariant in every state; a hang is a rejected trace. A sample of the traces is additionally explained step by step by the mechanism model (mismatch = model drift, no alarm).",
+    "note": "TLC 1.8; DetSched switch points = GIL-realisable points in the two scheduler modules and in Handle.cancel/_run, BaseEventLoop._run_once/call_soon(_threadsafe)/_call_soon/call_later/call_at; selector replaced by a cooperative stub (self-pipe flag, controlled clock), loop.time() = controlled clock, concurrent.futures.Future replaced in the scheduler module by a cooperative future; one disposing thread per item; the loop does not start or stop during a dispose() call; NoLostAction is this check's reading of 'actions ... run'",
     "ref": "DESIGN.md 6 C33, 3.3",
 }
 
@@ -36,7 +36,7 @@ ASSUME = [
 ]
 
 QUICK = dict(cap1=18, rnd1=3, n2=8, cap2=14, rnd2=2, bound=2, procs=8)
-THOROUGH = dict(cap1=600, rnd1=100, n2=150, cap2=100, rnd2=10, bound=3, procs=8)
+THOROUGH = dict(cap1=250, rnd1=50, n2=80, cap2=60, rnd2=6, bound=3, procs=8)
 
 NEEDED_ACTIONS = ["NextOp", "SchedCall", "SchedEnqueue", "SchedAssign", "SchedRet", "DispCall", "CancelPop", "CancelSet",
                   "DispMarshal", "DispAwait", "DispRet", "CancelDone", "PostDispose", "Wake", "RunInterval", "Stage2Timer", "Stage2Assign",
@@ -90,18 +90,18 @@ def run(tier: str) -> int:
             conc = [sc for sc in scs1 if sc["scn"][0]["d"] > 0]
             # the same scenarios with the delay passed as a timedelta / through schedule_absolute, and with the disposable
             # classes in the switch-point focus as well
-            jobs += [(sc, 2, 150, 15, ck.seed + 1, "td", False) for sc in conc]
-            jobs += [(sc, 2, 150, 15, ck.seed + 2, "abs", False) for sc in conc]
-            jobs += [(sc, 2, 200, 15, ck.seed + 3, "rel", True) for sc in scs1 if sc["scn"][0]["dw"] != "none"]
+            jobs += [(sc, 2, 70, 8, ck.seed + 1, "td", False) for sc in conc]
+            jobs += [(sc, 2, 70, 8, ck.seed + 2, "abs", False) for sc in conc]
+            jobs += [(sc, 2, 90, 8, ck.seed + 3, "rel", True) for sc in scs1 if sc["scn"][0]["dw"] != "none"]
             # three threads: a second foreign thread G (one schedules, the other disposes)
             scsg, rg = ac.export_scenarios(2, "FamGExport", foreign=("F", "G"))
             ck.add_tlc(rg, "scenario family exported, 3 threads")
             ck.note("scenario_family_3_threads", len(scsg))
-            jobs += [(sc, 2, 150, 15, ck.seed + 4, "rel", False) for sc in rnd.sample(scsg, min(120, len(scsg)))]
+            jobs += [(sc, 2, 80, 8, ck.seed + 4, "rel", False) for sc in rnd.sample(scsg, min(60, len(scsg)))]
         # longest first: the scenarios with a foreign thread at work while the loop runs
         jobs.sort(key=lambda j: -sum(1 for it in j[0]["scn"] if "F" in (it["sw"], it["dw"])) * j[2])
         t0 = time.time()
-        tot = ac.conc_check(ck, jobs, pool, "real executions", mech_sample=16 if q else 1200)
+        tot = ac.conc_check(ck, jobs, pool, "real executions", mech_sample=16 if q else 600)
         ck.note("exploration_and_validation_wall_s", round(time.time() - t0, 1))
         for k, v in tot.items():
             ck.note("conc_" + k, v)
